@@ -158,7 +158,18 @@ def case_random(ctx, rng, wd):
             lists_own[isolated[0]][isolated[1]] = []
             w_own[isolated[0]][isolated[1]] = np.zeros(0)
             ctx.count("particle_without_neighbours_in_one_frame")
-        write_nl(fn, lists_own)
+        alt = [[x[:max(1, len(x) // 2)] for x in ll] for ll in lists_own]
+        if rng.random() < 0.3 and all(len(x) for ll in alt for x in ll) and alt != lists_own:
+            # history: ANOTHER list of the same shape lived under this name and was analysed with the same arguments; it was then replaced
+            # by the present one with its time stamp preserved (cp -p, restored from a backup): the content decides
+            write_nl(fn, alt)
+            st_ = os.stat(fn)
+            ctx.call("boo_2d/prior_object_other_file", boo_2d, snaps, l, fn, "", ppp, max(10, max(len(x) for ll in lists_own for x in ll) + 1), "")
+            write_nl(fn, lists_own)
+            os.utime(fn, ns=(st_.st_atime_ns, st_.st_mtime_ns))
+            ctx.count("file_replaced_with_preserved_time_stamp")
+        else:
+            write_nl(fn, lists_own)
         if rng.random() < 0.7:
             fw = os.path.join(wd, "w.dat")
             with open(fw, "w") as f:
